@@ -101,7 +101,9 @@ def main(argv=None) -> int:
         print(f"VIOLATION property={pid} replay={p} no-failing-input-found")
         rc = 1
 
-    if not a.no_lean:  # development runs without the Lean step never overwrite the evidence
+    # development runs without the Lean step, and runs against a patched scratch copy of the sources
+    # (tools/seedmatrix.py, tools/mutant.sh set VERIF_NO_EVIDENCE), never overwrite the evidence
+    if not a.no_lean and not os.environ.get("VERIF_NO_EVIDENCE"):
         write_evidence(pid, level, ctx, out, lean, len(seen) + (1 if rc and not seen else 0),
                        [e.get("signature") for e, _ in known_hit])
     dt = time.time() - ctx.t0
